@@ -85,6 +85,7 @@ class Client:
         self.errmsg: bytes = b""
 
         self.__capabilities: dict[str, str] = {}
+        self.__response_lines: List[List[Tuple[str, bytes]]] = []
         self.__respcode_expr = re.compile(rb"(OK|NO|BYE)\s*(.+)?")
         self.__error_expr = re.compile(rb'(\([\w/-]+\))?\s*(".+")')
         self.__size_expr = re.compile(rb"\{(\d+)\+?\}")
@@ -166,19 +167,82 @@ class Client:
             except (socket.timeout, ssl.SSLError):
                 raise Error("Failed to read data from the server")
 
-        if len(ret):
-            m = self.__size_expr.match(ret)
-            if m:
-                raise Literal(int(m.group(1)))
-
-            m = self.__respcode_expr.match(ret)
-            if m:
-                if m.group(1) == b"BYE":
-                    raise Error("Connection closed by server")
-                if m.group(1) == b"NO":
-                    self.__parse_error(m.group(2))
-                raise Response(m.group(1), m.group(2))
         return ret
+
+    def __tokenize(
+        self, line: bytes, tokens: List[Tuple[str, bytes]]
+    ) -> Tuple[Optional[int], int]:
+        """Split a line received from the server into tokens.
+
+        Tokens are appended to *tokens* as 2-uples: ("string", value)
+        for quoted strings (escape sequences removed) and ("atom",
+        value) for everything else, parentheses being atoms on their
+        own.
+
+        :param line: the line to split (without CRLF)
+        :param tokens: the list to fill
+        :return: a 2-uple (size, position): if the line ends with a
+                 literal header, its size and the position where the
+                 header starts, (None, len(line)) otherwise
+        """
+        pos = 0
+        while pos < len(line):
+            char = line[pos : pos + 1]
+            if char in b" \t":
+                pos += 1
+                continue
+            if char == b'"':
+                value = b""
+                end = pos + 1
+                while end < len(line) and line[end : end + 1] != b'"':
+                    if line[end : end + 1] == b"\\" and end + 1 < len(line):
+                        end += 1
+                    value += line[end : end + 1]
+                    end += 1
+                tokens.append(("string", value))
+                pos = end + 1
+                continue
+            if char in b"()":
+                tokens.append(("atom", char))
+                pos += 1
+                continue
+            m = self.__size_expr.match(line, pos)
+            if m is not None and m.end() == len(line):
+                return (int(m.group(1)), pos)
+            end = pos
+            while end < len(line) and line[end : end + 1] not in b' \t"()':
+                end += 1
+            tokens.append(("atom", line[pos:end]))
+            pos = end
+        return (None, len(line))
+
+    def __read_response_line(self) -> Tuple[List[Tuple[str, bytes]], bytes]:
+        """Read one response line from the server, literals included.
+
+        A literal ({size} followed by CRLF and size bytes) is part of
+        the line it starts on, and the line continues after it.
+
+        :return: a 2-uple (tokens, raw content of the line)
+        """
+        tokens: List[Tuple[str, bytes]] = []
+        raw = b""
+        while True:
+            line = self.__read_line()
+            size, pos = self.__tokenize(line, tokens)
+            raw += line[:pos]
+            if size is None:
+                break
+            value = self.__read_block(size)
+            tokens.append(("string", value))
+            raw += value
+            if value.endswith(CRLF):
+                # Some servers do not send the CRLF which ends the
+                # line when the literal itself ends with CRLF.
+                line = self.__read_line()
+                if len(line):
+                    self.__read_buffer = line + CRLF + self.__read_buffer
+                break
+        return (tokens, raw)
 
     def __read_response(self, nblines: int = -1) -> Tuple[bytes, bytes, bytes]:
         """Read a response from the server.
@@ -194,27 +258,53 @@ class Client:
         nblines is provided, code and data can be equal to None.
         """
         resp, code, data = (b"", None, None)
+        self.__response_lines = []
         cpt = 0
         while True:
-            try:
-                line = self.__read_line()
-            except Response as inst:
-                code = inst.code
-                data = inst.data
+            tokens, line = self.__read_response_line()
+            if not len(tokens):
+                continue
+            if tokens[0] in [("atom", b"OK"), ("atom", b"NO"), ("atom", b"BYE")]:
+                code = tokens[0][1]
+                respcode, data = self.__parse_status(tokens[1:])
+                if code == b"BYE":
+                    raise Error("Connection closed by server")
+                if code == b"NO":
+                    self.errcode = respcode
+                    self.errmsg = data if data is not None else b""
                 break
-            except Literal as inst:
-                resp += self.__read_block(inst.value)
-                if not resp.endswith(CRLF):
-                    resp += self.__read_line() + CRLF
-                continue
-            if not len(line):
-                continue
+            self.__response_lines += [tokens]
             resp += line + CRLF
             cpt += 1
             if nblines != -1 and cpt == nblines:
                 break
 
         return (code, data, resp)
+
+    def __parse_status(
+        self, tokens: List[Tuple[str, bytes]]
+    ) -> Tuple[bytes, Optional[bytes]]:
+        """Parse what follows OK, NO or BYE in a response.
+
+        Syntax: [SP "(" resp-code ")"] [SP string]
+
+        :param tokens: the tokens found after the response's name
+        :return: a 2-uple (response code, human readable text), the
+                 code being empty and the text None when missing
+        """
+        respcode = b""
+        pos = 0
+        if pos < len(tokens) and tokens[pos] == ("atom", b"("):
+            pos += 1
+            if pos < len(tokens) and tokens[pos][0] == "atom":
+                respcode = tokens[pos][1]
+            while pos < len(tokens) and tokens[pos] != ("atom", b")"):
+                pos += 1
+            pos += 1
+        text = None
+        if pos < len(tokens) and tokens[pos][0] == "string":
+            text = tokens[pos][1]
+        return (respcode, text)
 
     def __prepare_args(self, args: List[Any]) -> List[bytes]:
         """Format command arguments before sending them.
@@ -299,43 +389,14 @@ class Client:
         if code == "NO":
             return False
 
-        for l in capabilities.splitlines():
-            parts = l.split(None, 1)
-            cname = parts[0].strip(b'"').decode("utf-8")
+        for tokens in self.__response_lines:
+            cname = tokens[0][1].decode("utf-8")
             if cname not in KNOWN_CAPABILITIES:
                 continue
             self.__capabilities[cname] = (
-                parts[1].strip(b'"').decode("utf-8") if len(parts) > 1 else None
+                tokens[1][1].decode("utf-8") if len(tokens) > 1 else None
             )
         return True
-
-    def __parse_error(self, text: bytes):
-        """Parse an error received from the server.
-
-        if text corresponds to a size indication, we grab the
-        remaining content from the server.
-
-        Otherwise, we try to match an error of the form \(\w+\)?\s*".+"
-
-        On succes, the two public members errcode and errmsg are
-        filled with the parsing results.
-
-        :param text: the response to parse
-        """
-        m = self.__size_expr.match(text)
-        if m is not None:
-            self.errcode = b""
-            self.errmsg = self.__read_block(int(m.group(1)) + 2)
-            return
-
-        m = self.__error_expr.match(text)
-        if m is None:
-            raise Error("Bad error message")
-        if m.group(1) is not None:
-            self.errcode = m.group(1).strip(b"()")
-        else:
-            self.errcode = b""
-        self.errmsg = m.group(2).strip(b'"')
 
     def _plain_authentication(
         self, login: bytes, password: bytes, authz_id: bytes = b""
@@ -622,15 +683,9 @@ class Client:
             return None
         ret: List[str] = []
         active_script: str = None
-        for l in listing.splitlines():
-            if self.__size_expr.match(l):
-                continue
-            m = re.match(rb'"([^"]+)"\s*(.+)', l)
-            if m is None:
-                ret += [l.strip(b'"').decode("utf-8")]
-                continue
-            script = m.group(1).decode("utf-8")
-            if self.__active_expr.match(m.group(2)):
+        for tokens in self.__response_lines:
+            script = tokens[0][1].decode("utf-8")
+            if ("atom", b"ACTIVE") in [(t, v.upper()) for t, v in tokens[1:]]:
                 active_script = script
                 continue
             ret += [script]
@@ -652,10 +707,10 @@ class Client:
             "GETSCRIPT", [name.encode("utf-8")], withcontent=True
         )
         if code == "OK":
-            lines = content.splitlines()
-            if self.__size_expr.match(lines[0]) is not None:
-                lines = lines[1:]
-            return "\n".join([line.decode("utf-8") for line in lines])
+            script = b""
+            if len(self.__response_lines):
+                script = self.__response_lines[0][0][1]
+            return "\n".join([line.decode("utf-8") for line in script.splitlines()])
         return None
 
     @authentication_required
